@@ -257,6 +257,8 @@ impl Report {
 pub trait Monitor {
     fn prop(&self) -> &'static str;
     fn begin(&mut self, _w: &World, _s0: &Snap, _r: &mut Report) {}
+    /// may dry-run transactions; MUST leave the world exactly as found (checkpoint/restore)
+    fn dry(&mut self, _w: &mut World, _op: &Op, _pre: &Snap, _r: &mut Report) {}
     fn pre(&mut self, _w: &World, _op: &Op, _pre: &Snap, _r: &mut Report) {}
     fn post(&mut self, w: &World, step: &Step, r: &mut Report);
     fn end(&mut self, _w: &World, _r: &mut Report) {}
@@ -314,6 +316,9 @@ impl History {
 
     pub fn step_armed(&mut self, op: Op, armed: Option<u32>, report: &mut Report) -> Rc<Step> {
         let pre = self.last.clone();
+        for m in self.monitors.iter_mut() {
+            m.dry(&mut self.w, &op, &pre, report);
+        }
         for m in self.monitors.iter_mut() {
             m.pre(&self.w, &op, &pre, report);
         }
